@@ -70,3 +70,20 @@ def has_type(v, spec):
 
 def str_of(v):
     return str(v)
+
+
+def uf(name, *args):
+    """uninterpreted predicate: natively resolved by the replay driver (registered implementations)"""
+    return _UF[name](*args)
+
+
+def ufv(name, *args):
+    return _UF[name](*args)
+
+
+_UF = {}
+_TRACE = []
+
+
+def trace():
+    return tuple(_TRACE)
